@@ -68,13 +68,20 @@ wstran_pipe_send_cb(void *arg)
 	uaio          = p->user_txaio;
 	p->user_txaio = NULL;
 
-	if (uaio != NULL) {
-		int rv;
-		if ((rv = nni_aio_result(taio)) != 0) {
-			nni_aio_finish_error(uaio, rv);
-		} else {
-			nni_aio_finish(uaio, 0, 0);
+	if (nni_aio_result(taio) != 0) {
+		// The websocket layer only consumes the message on success.
+		// On failure it goes back to the submitter (who frees it),
+		// or is freed here if the submitter already gave up.
+		nni_msg *msg = nni_aio_get_msg(taio);
+		nni_aio_set_msg(taio, NULL);
+		if (uaio != NULL) {
+			nni_aio_set_msg(uaio, msg);
+			nni_aio_finish_error(uaio, nni_aio_result(taio));
+		} else if (msg != NULL) {
+			nni_msg_free(msg);
 		}
+	} else if (uaio != NULL) {
+		nni_aio_finish(uaio, 0, 0);
 	}
 	nni_mtx_unlock(&p->mtx);
 }
